@@ -77,7 +77,13 @@ fn classify(s: &Src, l0: f64, l1: f64) -> (Posed, f64) {
     }
     let wrap = l1 < l0;
     let e = if wrap { l - (l0 - l1) } else { l1 - l0 };
+    // a curve closed only within its tolerance has a seam (first vertex to last vertex, up to tol
+    // long) which the walk crosses without counting it
+    let seam = if s.closed { (s.m.v[0] - s.m.v[s.m.v.len() - 1]).norm() } else { 0.0 };
     if e < s.tol * (1.0 - 1e-9) - s.eps {
+        if wrap && e + seam >= s.tol * (1.0 - 1e-9) - s.eps {
+            return (Posed::Grey, e);
+        }
         return (Posed::Ill, e);
     }
     if e >= 4.0 * s.tol + s.eps && (l1 - l0).abs() >= s.tol * (1.0 + 1e-9) + s.eps {
@@ -178,7 +184,18 @@ fn judge_between(c: &mut Ctx, s: &Src, l0: f64, l1: f64, class: &str, api: &str,
     for q in &exp {
         worst = worst.max(dist_to_poly(&pv, q));
     }
-    c.close(api, "every travelled vertex within tol of the piece", class, worst, 0.0, tol + eps);
+    if c.verbose && worst > tol + eps {
+        for (k, q) in exp.iter().enumerate() {
+            let dq = dist_to_poly(&pv, q);
+            if dq > tol + eps {
+                println!("  travelled vertex {k} of {} at ({:e}, {:e}) is {dq:e} from the piece; neighbours in the expected list: {:?} / {:?}; piece has {} vertices, front {:?} back {:?}; l0={l0:e} l1={l1:e} L={:e} tol={tol:e} seam gap {:e}", exp.len(), q.x, q.y, exp.get(k.wrapping_sub(1)).map(|p| (p - q).norm()), exp.get(k + 1).map(|p| (p - q).norm()), pv.len(), pv[0], pv[pv.len() - 1], s.l_tot, (s.m.v[0] - s.m.v[s.m.v.len() - 1]).norm());
+            }
+        }
+    }
+    // (on a curve closed only within its tolerance the last vertex stands for the first one and is
+    // not visited: it may be a seam further away)
+    let seam = if s.closed { (s.m.v[0] - s.m.v[s.m.v.len() - 1]).norm() } else { 0.0 };
+    c.close(api, "every travelled vertex within tol of the piece", class, worst, 0.0, tol + seam + eps);
     let mut worst = 0.0f64;
     for q in &pv {
         worst = worst.max(s.m.dist(q));
